@@ -1460,10 +1460,41 @@ def run_case(case):
 
 
 def main():
+    """Cases run in forked children, 250 at a time: classes and specifications of earlier worlds
+    stay reachable for a while, and the full gc.collect() of the lifetime ops would otherwise walk
+    an ever growing heap.  A child killed by a signal makes the driver die the same way."""
+    import json
+    import os
+    import gc
     payload = _boot.read_payload()
+    cases = payload["cases"]
+    # the payload is millions of small lists: keep them out of every later gc.collect()
+    gc.collect()
+    gc.freeze()
     out = []
-    for case in payload["cases"]:
-        out.append(run_case(case))
+    for start in range(0, len(cases), 250):
+        chunk = cases[start:start + 250]
+        rfd, wfd = os.pipe()
+        pid = os.fork()
+        if pid == 0:
+            try:
+                os.close(rfd)
+                data = json.dumps([run_case(c) for c in chunk]).encode()
+                with os.fdopen(wfd, "wb") as fh:
+                    fh.write(data)
+            finally:
+                os._exit(0)
+        os.close(wfd)
+        with os.fdopen(rfd, "rb") as fh:
+            data = fh.read()
+        _pid, status = os.waitpid(pid, 0)
+        if os.WIFSIGNALED(status):
+            signal.signal(os.WTERMSIG(status), signal.SIG_DFL)
+            os.kill(os.getpid(), os.WTERMSIG(status))
+        res = json.loads(data.decode()) if data else None
+        if res is None or len(res) != len(chunk):
+            raise SystemExit(3)
+        out.extend(res)
     _boot.write_result({"obs": out})
 
 
